@@ -397,8 +397,27 @@ def _same_conflict_name(t1, t2, lose_root, win_root, W):
 
 # ----------------------------------------------------------------- Archive::load / Archive::save
 
-def _install_archive_models(ex):
+PAIR_LEN = 3
+
+
+def _pair_text(ex, name):
+    """a pair id as TEXT: 0..PAIR_LEN one-byte characters (real ids are 64 hex digits; the comparison code cannot tell)"""
+    arr = z3.Array(name, z3.IntSort(), z3.IntSort())
+    ln = ex.fresh_int(name.lower() + "_len", lo=0, hi=PAIR_LEN)
+    for i in range(PAIR_LEN):
+        ex.assumes.append(z3.And(z3.Select(arr, i) >= 1, z3.Select(arr, i) <= 127))
+    return VSeq(arr, I(0), ln, "char")
+
+
+def _text_eq(a, b):
+    return z3.And(a.len == b.len, *[z3.Implies(i < a.len, a.at(I(i)) == b.at(I(i))) for i in range(PAIR_LEN)])
+
+
+def _install_archive_models(ex, text_pairs=False):
     import re as _re
+    if text_pairs:
+        stdmodels.install_strings(ex, PAIR_LEN)
+        ex.pair_texts = (_pair_text(ex, "PARSED_PAIR_TEXT"), _pair_text(ex, "EXPECTED_PAIR_TEXT"))
 
     def fs_read(ex_, st, args, dest_ty, func, where):
         okr = ex_.fresh_bool("read_ok")
@@ -413,7 +432,7 @@ def _install_archive_models(ex):
         src = codecmodels.as_seq(ex_, st, args[0])
         okp = ex_.fresh_bool("parse_ok")
         fv = ex_.fresh_int("parsed_format_version", ty="u32")
-        arc = VStruct("Archive", [VInt(fv, "u32"), strv(z3.Int("PARSED_PAIR")), VInt(ex_.fresh_int("parsed_epoch", ty="u64"), "u64"),
+        arc = VStruct("Archive", [VInt(fv, "u32"), VStruct("String", [ex_.pair_texts[0]]) if text_pairs else strv(z3.Int("PARSED_PAIR")), VInt(ex_.fresh_int("parsed_epoch", ty="u64"), "u64"),
                                   strv(z3.Int("PARSED_HOST")), VStruct("AbsMap", [VInt(I(77), "usize")])])
         ex_.inputs = getattr(ex_, "inputs", {})
         ex_.inputs["parse"] = (okp, fv)
@@ -428,6 +447,9 @@ def _install_archive_models(ex):
         return VEnum("Result", simp(z3.If(oks, I(0), I(1))), {0: [VSeq(z3.Array("JSON", z3.IntSort(), z3.IntSort()), I(0), n, "u8")], 1: [VOpaque("serde_json::Error")]})
 
     def string_eq(ex_, st, args, dest_ty, func, where):
+        if text_pairs:
+            t = _text_eq(stdmodels._str_of(ex_, st, args[0]), stdmodels._str_of(ex_, st, args[1]))
+            return VBool(simp(z3.Not(t) if func.endswith("::ne") else t))
         a, b = fsmodels.text_term(ex_, st, args[0]), fsmodels.text_term(ex_, st, args[1])
         t = a == b
         return VBool(simp(z3.Not(t) if func.endswith("::ne") else t))
@@ -449,10 +471,11 @@ def format_version_const():
 
 def load_obligations(ctx, R, prover, pid):
     ex = ctx.ex()
-    _install_archive_models(ex)
-    PATH, EXPECT = z3.Int("ARCHIVE_PATH"), z3.Int("EXPECTED_PAIR")
+    _install_archive_models(ex, text_pairs=True)
+    PATH = z3.Int("ARCHIVE_PATH")
+    parsed_pair, expected_pair = ex.pair_texts
     st = State()
-    res = ex.exec_fn(ctx.fn(ex, "Archive::load"), [VRef("val", val=pathv(PATH)), VRef("val", val=strv(EXPECT))], st)
+    res = ex.exec_fn(ctx.fn(ex, "Archive::load"), [VRef("val", val=pathv(PATH)), VRef("val", val=expected_pair)], st)
     if res is None:
         raise Inconclusive("Archive::load never returns")
     ex.exit_guards.append(st.guard)
@@ -466,15 +489,15 @@ def load_obligations(ctx, R, prover, pid):
     FV = format_version_const()
     # the parsed bytes are those of a successful read OF THE ARCHIVE PATH
     from_archive = _any(z3.And(r["guard"], r["ok"], r["path"] == PATH, z3.BoolVal(parses[0]["input"] == "FILE_BYTES_%d" % r["seq"])) for r in reads)
-    trusted = z3.And(from_archive, okp, fv == FV, z3.Int("PARSED_PAIR") == EXPECT)
+    trusted = z3.And(from_archive, okp, fv == FV, _text_eq(parsed_pair, expected_pair))
     goals = {"an-archive-is-returned-only-if-it-was-read,-parsed,-has-format-version-%d-and-belongs-to-this-pair" % FV: loaded == trusted,
              "only-the-archive-file-is-read-and-nothing-is-written": _all(z3.Implies(e["guard"], z3.And(z3.BoolVal(e["call"] in ("read", "json-parse")), z3.Or(e["call"] != "read", e["path"] == PATH))) for e in eff)}
     if 1 in res.pay:
         a = fsmodels._deep(ex, st, res.pay[1][0])
-        goals["the-returned-archive-is-the-parsed-one"] = z3.Implies(loaded, z3.And(a.f[0].t == fv, a.f[1].f[0].t == z3.Int("PARSED_PAIR"), a.f[4].f[0].t == 77))
+        goals["the-returned-archive-is-the-parsed-one"] = z3.Implies(loaded, z3.And(a.f[0].t == fv, z3.BoolVal(isinstance(a.f[1], VStruct) and isinstance(a.f[1].f[0], VSeq) and str(a.f[1].f[0].arr) == "PARSED_PAIR_TEXT"), a.f[4].f[0].t == 77))
     from . import bisyncnative
     prover.prove(ex, goals, "%s/Archive::load" % pid,
-                 "any path, any expected pair id, reading may fail, the parser returns ANY Archive value or an error (serde_json is a contract)",
+                 "any path; the expected and the recorded pair id are TEXTS of 0..%d characters each (every character symbolic); reading may fail, the parser returns ANY Archive value or an error (serde_json is a contract)" % PAIR_LEN,
                  ["Archive::load"], bisyncnative.make_witness(R, pid, "load"), covers={"load-reachable": loaded})
 
 
